@@ -117,7 +117,16 @@ func genTree(r *hx.Rand, cs int, maxFiles int) treeSpec {
 		default:
 			size = r.Intn(6*cs + 2)
 		}
-		t.files = append(t.files, treeFile{rel, r.Bytes(size)})
+		data := r.Bytes(size)
+		if size >= cs && r.Intn(4) == 0 {
+			// runs of zero bytes that cover whole chunks (sparse images, padded archives)
+			k := r.Intn(size / cs)
+			m := 1 + r.Intn(size/cs-k)
+			for j := k * cs; j < (k+m)*cs && j < size; j++ {
+				data[j] = 0
+			}
+		}
+		t.files = append(t.files, treeFile{rel, data})
 	}
 	// empty directories in awkward places: a name that is a proper prefix of its
 	// next sibling's (file or directory, empty or not), inside a populated
